@@ -216,6 +216,12 @@ func (ft *funcTrans) call(in ssa.CallInstruction, val *ssa.Call) {
 			}
 		}
 	}
+	if callee != nil && val != nil && (callee.String() == "fmt.Sprintf") {
+		if t := ft.sprintfTerm(com); t != "" {
+			w.assumptions["fmt.Sprintf with a constant format modelled verb by verb (%s, %d, %v, %0Nd, %t)"] = true
+			ft.assume(fmt.Sprintf("(= %s %s)", ft.vals[val].T.S, t))
+		}
+	}
 	ecPost := &evalCtx{w: w, pkg: pkg, env: envPost, st: st, old: pre, lets: c.Lets}
 	calleeBV := c.Mode == "bv"
 	if calleeBV != w.BV && !c.Trusted {
